@@ -510,7 +510,19 @@ def autoforwards_function(func, args, kwargs):
         examined.pop()
 
 
+def _annotations_owner(func):
+    """functools.wraps copies __annotations__ onto the wrapper: returns the
+    function they were written for, whose module gives them their meaning"""
+    try:
+        while func.__wrapped__.__annotations__ is func.__annotations__:
+            func = func.__wrapped__
+    except AttributeError:
+        pass
+    return func
+
+
 def _autoforwards_function(func, args, kwargs):
+    annotated = _annotations_owner(func)
     with cleanup_functools_wrapper(func):
         try:
             sig = _signatures.signature(func)
@@ -518,6 +530,8 @@ def _autoforwards_function(func, args, kwargs):
             # eg. a functools.lru_cache wrapper: without __wrapped__ it is
             # a builtin for which no signature can be found
             raise UnknownForwards
+    if annotated is not func:
+        sig = _signatures._upgrade_annotations(sig, annotated)
     if not any_params_star(sig):
         raise UnknownForwards
     func_ast = _util.get_ast(func)
